@@ -77,7 +77,7 @@ class Run(_Scope):
         ctxs = [e for e in st.events if e[0] == "copy_context"]
         given = t["context"]
         st.check("C03-P1:task-context-is-a-snapshot-taken-at-the-spawn-point",
-                 z3.BoolVal(True) if given is None else
+                 z3.BoolVal(True) if (given is None or it.kind(given) == "none") else
                  z3.BoolVal(bool(ctxs) and any(given.eq(c[1]) for c in ctxs)))
         st.check("canary", z3.BoolVal(False), kind="canary")
 
